@@ -81,3 +81,27 @@ MUTANTS += [
          old='\tdecoder->total_blocks\n\t  = (decoder->stream_length + decoder->dtype->block_size - 1)\n\t  / decoder->dtype->block_size;\n',
          new='\tdecoder->total_blocks\n\t  = (decoder->stream_length + decoder->dtype->block_size - 1)\n\t  / decoder->dtype->block_size;\n\tif (decoder->stream_pos > 0) decoder->last_block = (decoder->stream_pos - 1) / decoder->dtype->block_size;\n'),
 ]
+MUTANTS += [
+    # ---- C09 ----
+    dict(id='c09-f1-reverted', props=['C09'], file='lib/pm2_decoder.c',
+         old='} else if (code - 15 < sizeof(copy_decode) / sizeof(*copy_decode)) {', new='} else if (1) {'),
+    dict(id='c09-code-clamp-dropped', props=['C09'], file='lib/lh_new_decoder.c',
+         old='\tif (n > NUM_CODES) {\n\t\tn = NUM_CODES;\n\t}', new=''),
+    dict(id='c09-expand-queue-check-dropped', props=['C09'], file='lib/tree_decode.c',
+         old='\tif (build->tree_allocated + new_nodes > build->tree_len) {\n\t\treturn;\n\t}', new=''),
+    dict(id='c09-skip-run-overshoot', props=['C09'], file='lib/lh_new_decoder.c',
+         old='for (j = 0; j < skip_count && i < n; ++j) {', new='for (j = 0; j < skip_count; ++j) {'),
+    dict(id='c09-lz5-outbuf-small', props=['C09'], file='lib/lz5_decoder.c',
+         old='#define OUTPUT_BUFFER_SIZE (15 + THRESHOLD) * 8', new='#define OUTPUT_BUFFER_SIZE (15 + THRESHOLD) * 7'),
+    dict(id='c09-lk7-outbuf', props=['C09'], file='lib/lh_new_decoder.c',
+         old='\t} else {\n\t\treturn 514;\n\t}', new='\t} else {\n\t\treturn 70000;\n\t}'),
+]
+MUTANTS += [
+    dict(id='c09-pm1-ring-modulo', props=['C09'], file='lib/pm1_decoder.c',
+         old='\t\tcopy_index = (copy_index + 1) % RING_BUFFER_SIZE;', new='\t\tcopy_index = (copy_index + 1);'),
+    dict(id='c09-pm2-offset-tree-8-entries', props=['C09'], file='lib/pm2_decoder.c',
+         old='\tuint8_t offset_lengths[8];', new='\tuint8_t offset_lengths[7];'),
+    dict(id='c09-null-reads-1040', props=['C09'], file='lib/null_decoder.c',
+         old='return decoder->callback(buf, BLOCK_READ_SIZE, decoder->callback_data);',
+         new='return decoder->callback(buf, BLOCK_READ_SIZE + 16, decoder->callback_data);'),
+]
